@@ -661,6 +661,46 @@ def registries_are_separate_along_a_path(col):
                                                        ' (part_idx %r, path %r, carried %r)' % (got.exc.part_idx, got.exc.path, got.exc.exc),
                                                        'the value %r' % (want,) if not isinstance(want, tuple) else
                                                        'a PathAccessError for part %d of this path carrying the PathAccessError of the accessor' % want[1]), None)
+    # a lookup may fail with an exception object that is FALSY (an error class that is sized - "did you mean" candidates, none found -
+    # or defines __bool__): the segment failed all the same
+    class NoSuchField(AttributeError):
+        def __init__(self, name, candidates=()):
+            AttributeError.__init__(self, name)
+            self.candidates = list(candidates)
+
+        def __len__(self):
+            return len(self.candidates)
+
+    class NoSuchKey(KeyError):
+        def __bool__(self):
+            return False
+
+    class Strict:
+        def __init__(self, **kw):
+            self.__dict__.update(kw)
+
+        def __getattr__(self, name):
+            raise NoSuchField(name)
+
+    class StrictDict(dict):
+        def __missing__(self, key):
+            raise NoSuchKey(key)
+    falsy_target = lambda: {'o': Strict(a=Strict(b=1), x=5), 'd': StrictDict(k=StrictDict(j=2), a={'b': 3})}
+    for spec, want in (('o.a.b', 1), ('o.zz', ('pae', 1)), ('o.zz.b', ('pae', 1)), ('o.a.zz', ('pae', 2)), (Path('o', T.zz), ('pae', 1)), (Path('o', T.zz, 'x'), ('pae', 1)),
+                       ('d.k.j', 2), ('d.zz', ('pae', 1)), ('d.zz.a', ('pae', 1)), ('d.k.zz.j', ('pae', 2)), (Path('d', T['zz']), ('pae', 1)), (Path('d', T['zz'], 'a', 'b'), ('pae', 1)),
+                       (T['d']['zz']['a'], ('pae', 1)), (T['o'].zz.x, ('pae', 1))):
+        got = call(G, falsy_target(), spec)
+        col.case(('falsy-lookup-error', short(spec)), True)
+        if isinstance(want, tuple):
+            col.count('failing_paths')
+            ok = (not got.ok) and isinstance(got.exc, PathAccessError) and got.exc.part_idx == want[1] and isinstance(got.exc.exc, (NoSuchField, NoSuchKey))
+        else:
+            col.count('valid_paths')
+            ok = got.ok and got.value == want
+        if not ok:
+            col.violation('C01/failing-lookup-with-a-falsy-exception-not-reported', 'glom(.., %r): %r%s; expected %s' % (
+                spec, got, '' if got.ok or not isinstance(got.exc, PathAccessError) else ' (part_idx %r)' % got.exc.part_idx,
+                'the value %r' % (want,) if not isinstance(want, tuple) else 'a PathAccessError for part %d carrying the (falsy) error of the lookup' % want[1]), None)
     for name, runner in (('busy', busy.glom), ('idle', idle.glom), ('created-afterwards', fresh.glom), ('glom', G)):
         for spec, want in cases:
             got = call(runner, mk(), spec)
